@@ -188,7 +188,21 @@ func writeIsTriviallySerializableSpecializations(w *formatting.IndentedWriter, e
 	w.WriteStringln("#endif\n")
 
 	for _, ns := range env.Namespaces {
+		// Containers of trivially serializable elements are copied as one block of memory without
+		// calling the element serializer, so a record that previous versions read and write through
+		// a compatibility serializer must not be declared trivially serializable.
+		changedRecords := make(map[string]bool)
+		for _, changes := range ns.DefinitionChanges {
+			for _, change := range changes {
+				if rc, ok := change.(*dsl.RecordChange); ok {
+					changedRecords[rc.LatestDefinition().GetDefinitionMeta().Name] = true
+				}
+			}
+		}
 		for _, td := range ns.TypeDefinitions {
+			if changedRecords[td.GetDefinitionMeta().Name] {
+				continue
+			}
 			writeIsTriviallySerializableSpecialization(w, td)
 		}
 	}
